@@ -113,7 +113,7 @@ type lightCM struct {
 }
 
 func newLightCM() *lightCM {
-	return &lightCM{started: map[int64]int{}, stopped: map[int64]int{}, chanCh: make(chan string), eventCh: make(chan *api.ReplicateAPIEvent, 4)}
+	return &lightCM{started: map[int64]int{}, stopped: map[int64]int{}, chanCh: make(chan string), eventCh: make(chan *api.ReplicateAPIEvent)}
 }
 func (l *lightCM) StartReadCollection(ctx context.Context, db *coremodel.DatabaseInfo, info *pb.CollectionInfo, s []*msgpb.MsgPosition, m map[string]uint64) error {
 	l.mu.Lock()
